@@ -451,6 +451,15 @@ def run_icp(ck, rng, thorough):
                 icp, kw = (shared if steps is None and rng.random() < 0.6 else pp.module.ICP(stepper=stepper)), {}
             ts = tt(S[0] if nb == 1 else S)
             tg = tt(Tg[0] if nb == 1 else Tg)
+            if how_init == "none" and icp is not shared and rng.random() < 0.6:
+                # history on the same object: an earlier call with a per-call `init` far away must not influence this
+                # call, whose initial transform is the constructor's (identity)
+                far = pp.SE3(tt(np.concatenate([rng.standard_normal(3) * 20 * (1 + float(np.abs(S).max())), G.random_quat(rng, 1)[0]])))
+                try:
+                    icp(tt(rng.standard_normal((7, 3))), tt(rng.standard_normal((9, 3))), init=far)
+                    ck.mark("ICP/after-call-with-forward-init")
+                except Exception:
+                    pass
             reg = f"ICP/f64/{mode}/init:{how_init}"
             wit = {"mode": mode, "N": n, "M": int(Tg.shape[1]), "batch": nb, "init": how_init, "stepper_steps": steps,
                    "source": S if S.size <= 60 else None, "target": Tg if Tg.size <= 60 else None,
@@ -610,7 +619,7 @@ def run(ck):
                    f"{fn}/batch-rank0", f"{fn}/batch-rank1", f"{fn}/batch-rank2")
     for dn in ("f64", "f32"):
         ck.require(f"svdtf/{dn}/reflection-stress", f"svdstf/{dn}/reflection-stress", minimum=2000)
-    ck.require("ICP/recover", "ICP/recover+init", "ICP/recover+superset", "ICP/far", "ICP/noisy", "ICP/partial", "ICP/short-stepper",
+    ck.require("ICP/after-call-with-forward-init", "ICP/recover", "ICP/recover+init", "ICP/recover+superset", "ICP/far", "ICP/noisy", "ICP/partial", "ICP/short-stepper",
                "ICP/batched", "ICP/init:none", "ICP/init:constructor", "ICP/init:forward", "ICP/reused-object",
                "ICP/recovered-inside-basin", "ICP/strictly-improved",
                "EPnP/refine=True", "EPnP/refine=False", "EPnP/N:6", "EPnP/N:7-8", "EPnP/N:9-100", "EPnP/batch:True", "EPnP/batch:False")
